@@ -217,6 +217,9 @@ func die(kind string) {
 		syscall.Kill(os.Getpid(), syscall.SIGSEGV)
 	case "abrt":
 		syscall.Kill(os.Getpid(), syscall.SIGABRT)
+	case "kill-monitor":
+		// the job monitor (mrjob, this process's parent) dies
+		syscall.Kill(os.Getppid(), syscall.SIGKILL)
 	}
 	time.Sleep(5 * time.Second)
 	os.Exit(3)
@@ -264,7 +267,7 @@ func prologue(md *core.Metadata, phase string) string {
 	fault := readFault(rec.Key)
 	rec.Fault = fault
 	switch fault {
-	case "exit1", "kill9", "segv", "abrt":
+	case "exit1", "kill9", "segv", "abrt", "kill-monitor":
 		die(fault)
 	}
 	return fault
@@ -298,6 +301,13 @@ func split(md *core.Metadata) (*core.StageDefs, error) {
 	if err := json.Unmarshal(b, &defs); err != nil {
 		rec.How = "errors"
 		return nil, fmt.Errorf("verif: stage defs: %v", err)
+	}
+	switch fault {
+	case "exit1-late", "kill9-late":
+		// the chunk definitions are written (and journalled), then the process dies
+		md.Write(core.StageDefsFile, &defs)
+		md.UpdateJournal(core.StageDefsFile)
+		die(strings.TrimSuffix(fault, "-late"))
 	}
 	rec.How = "complete"
 	return &defs, nil
